@@ -233,6 +233,39 @@ def matching_module_tasks(P):
                                              "larger_is_better_exactly_for_iou", f"result[1] == {mode.startswith('IOU')}")))
 
 
+def dispatch_tasks(P, c_main, extra):
+    """2-D objects that carry a ROI (detection2d / tracking2d, traffic lights included) are matched by the same score-based code: the identity-based
+    pairing functions are for ROI-less objects only (their precondition here), so a dispatch that sends ROI objects there fails that precondition"""
+    import copy
+    idx = P.index
+    TLL = idx.lookup("common.label:TrafficLightLabel")
+    MM = idx.lookup(f"{OM}:MatchingMode")
+    P.model(ClassModel("Roi", {}, repo_class=idx.lookup("common.object2d:Roi")))
+    P.model(ClassModel("TLLabel", {"label": TEnum(TLL), "name": TStr()}, repo_class=idx.lookup("common.label:Label")))
+    for tag, lab_model in (("traffic-light labels", "TLLabel"), ("ordinary labels", "Label")):
+        oname = "DynamicObject2D" + ("TL" if lab_model == "TLLabel" else "")
+        P.model(ClassModel(oname, {"uuid": TOpt(TStr()), "frame_id": TEnum(idx.lookup("common.schema:FrameID")), "semantic_label": TSObj(lab_model),
+                                   "roi": TSObj("Roi", nullable=True)}, repo_class=idx.lookup("common.object2d:DynamicObject2D")))
+        O2 = TSObj(oname)
+        RT = TSList(TSObj("DynamicObjectWithPerceptionResult"))
+        roi_less = E("only_for_objects_without_a_roi", f"{E_}[0].roi is None or {G_}[0].roi is None")
+        ex = dict(extra)
+        for fn in ("_get_object_results_for_tlr", "_get_object_results_with_id"):
+            ex[idx.lookup(f"{OR}:{fn}").fq] = Contract(f"{OR}:{fn}", params={}, returns=RT, requires=roi_less)
+        for k in list(ex):
+            if k.endswith("_get_fp_object_results") or k.endswith("_get_score_table"):
+                c2 = copy.copy(ex[k])
+                c2.params = {n: (TSList(O2) if n in (E_, G_) else t) for n, t in ex[k].params.items()}
+                ex[k] = c2
+        c = copy.copy(c_main)
+        c.params = dict(c_main.params)
+        c.params.update({E_: TSList(O2), G_: TSList(O2), "matching_mode": VEnum(MM, [n for n, _ in MM.enum_members(idx)].index("IOU2D"))})
+        c.locals = dict(c_main.locals)
+        c.locals.update({EW: TSList(O2), GW: TSList(O2)})
+        c.requires = list(c_main.requires) + [("every_object_carries_a_roi", f"forall(k, 0, len({E_}), {E_}[k].roi is not None) and forall(k, 0, len({G_}), {G_}[k].roi is not None)")]
+        P.verify(f"{OR}:get_object_results", name=f"get_object_results[2-D objects with ROI, {tag}, IOU2D]", contract=c, extra_contracts=ex)
+
+
 def build(P):
     idx = P.index
     models(P)
@@ -294,6 +327,7 @@ def build(P):
             c.params["matching_mode"] = VEnum(MM, mi)
             c.requires = list(c_main.requires) + [("task_family", FPV if tasks else f"not {FPV}")]
             P.verify(f"{OR}:get_object_results", name=f"get_object_results[3-D, {mode}, {fam}]", contract=c, extra_contracts=extra)
+    dispatch_tasks(P, c_main, extra)
     # ---------------------------------------------------------------- what the table cells mean: _get_score_table per matching class
     score_table_tasks(P)
     matching_module_tasks(P)
